@@ -346,6 +346,17 @@ def check(case):
                 hf = compile_hessian(e, V)
                 classes.append(f"{tag}:grad:{getattr(gf, '__name__', '?')}")
                 classes.append(f"{tag}:hess:{getattr(hf, '__name__', '?')}")
+                # arrays handed out by EARLIER calls at a regular point (kept by the caller, as a solver keeps its last gradient):
+                # a later call at the singular point must not turn them non-finite (a shared work buffer written before sanitising)
+                xr = np.abs(x) + 1.25
+                kept = {}
+                for name_, fn_ in (("compile_gradient", gf), ("compile_jacobian", jf), ("compile_hessian", hf)):
+                    try:
+                        a_ = fn_(xr.copy())
+                        if isinstance(a_, np.ndarray) and np.all(np.isfinite(a_)):
+                            kept[name_] = a_
+                    except Exception:
+                        pass
                 first = {"g": np.array(gf(x.copy()), dtype=float), "j": np.array(jf(x.copy()), dtype=float),
                          "h": np.array(hf(x.copy()), dtype=float)}
                 outs[tag] = {
@@ -355,6 +366,11 @@ def check(case):
                     "CompiledExpression.gradient": np.asarray(ce.gradient(x.copy()), dtype=float).reshape(-1),
                     "compile_hessian": np.asarray(hf(x.copy()), dtype=float),
                 }
+                for name_, a_ in kept.items():
+                    if not np.all(np.isfinite(a_)):
+                        return Result.violation(f"earlier-result-became-nonfinite:{name_}",
+                                                f"{tag}: the array returned by {name_} at the regular point {xr.tolist()} reads {np.asarray(a_).tolist()} "
+                                                f"after the callable was evaluated at the singular point; {desc}", classes)
                 for key, name in (("g", "compile_gradient"), ("j", "compile_jacobian"), ("h", "compile_hessian")):
                     a1, a2 = first[key].reshape(-1), outs[tag][name].reshape(-1)
                     if not np.array_equal(a1, a2, equal_nan=True):
